@@ -263,13 +263,40 @@ def check_C20(tier, seed):
                                 'Newton.never_worse_than_initial', 'Newton.accepted_chain_decreasing', 'Newton.no_warning_means_best_small'])
 
 
+def check_C11(tier, seed):
+    return reflective('C11', tier, seed, 'oracle_C11',
+                      'Proved on the program regenerated from mercier(), for every index type / operator structure / environment: '
+                      'DMerc = DWell + DGeod; DWell and d2_volume_d_psi2 equal their closed forms; all three vanish when p2 = 0; and on the '
+                      'discrete grid (every n) DGeod <= 0 under positivity of d_l_d_phi, d_phi, nfp, axis_length and non-vanishing etabar, B0, iotaN. '
+                      'NOT proved: the geometric clause (reported V\'\' equals the second psi-derivative of the volume enclosed by the constructed '
+                      'surfaces) -- it needs the O(r^3) geometry in the continuum model; quadrature error.',
+                      gprops=False, seq_obligations=['props/C11_spec.v', 'props/C11.v'],
+                      theorems=['C11_merc_sum', 'C11_well_closed', 'C11_V2_closed', 'C11_vanish_without_pressure', 'C11_geod_nonpositive'])
+
+
+def check_C13(tier, seed):
+    return reflective('C13', tier, seed, 'oracle_C13',
+                      'Proved on the regenerated programs, for every index type / environment: the untwisted coefficients of harmonics m = 1, 2, 3 describe the same '
+                      'function of the poloidal angle under theta = vartheta - helicity*nfp*varphi (all of r1, r2, r3; identity when helicity = 0); '
+                      'iotaN = iota + helicity*nfp; B_mag returns the prescribed quasisymmetric |B| in the helical angle in both toroidal-angle conventions '
+                      'and the two conventions agree when varphi = phi + nu(phi) and the B20 interpolants agree. Helicity: on the hand-written quadrant model '
+                      '(evaluated inside Coq on the sign pattern of real objects and compared with the code every run) the counter is a multiple of 4 '
+                      '(helicity is an integer), is negated by mirror and by reversal, is rotation invariant and equals 4*(signed 4->1 crossings). '
+                      'NOT proved: that the quadrant counter equals the geometric winding number of the continuous normal (needs a resolved grid); '
+                      'spline interpolation error off the nodes.',
+                      gprops=False, seq_obligations=['props/C13_spec.v', 'props/C13.v'], theory_obligations=['Quadrant'], ncorr=(8 if tier == 'quick' else 48),
+                      theorems=['C13_untwist_r1', 'C13_untwist_r2', 'C13_untwist_r3', 'C13_untwist_id_r1', 'C13_untwist_id_r2', 'C13_untwist_id_r3',
+                                'C13_bmag_r1_cyl', 'C13_bmag_r1_boozer', 'C13_bmag_r2_cyl', 'C13_bmag_r2_boozer', 'C13_cyl_boozer_r2', 'C13_iotaN',
+                                'Quadrant.counter_mod4', 'Quadrant.counter_mirror', 'Quadrant.counter_reverse', 'Quadrant.counter_winding', 'Quadrant.counter_rotate'])
+
+
 # hand-written theories each check depends on (others are not built, so work in progress elsewhere cannot disturb it)
 NEEDS = {
     'C08': ['Expr', 'Equiv', 'Dim'], 'C07': ['Expr', 'Equiv', 'Sign'], 'C05': ['Expr', 'Equiv', 'Shift'],
-    'C04': ['Expr', 'Shallow'], 'C02': ['Expr', 'Shallow', 'Newton'],
+    'C04': ['Expr', 'Shallow'], 'C11': ['Expr', 'Shallow'], 'C13': ['Expr', 'Shallow', 'Quadrant'], 'C02': ['Expr', 'Shallow', 'Newton'],
     'C20': ['Expr', 'Equiv', 'Sign', 'Shift', 'DiffMat', 'Newton', 'Bracket'],
 }
-CHECKS = {'C02': check_C02, 'C20': check_C20, 'C04': check_C04, 'C08': check_C08, 'C07': check_C07, 'C05': check_C05}
+CHECKS = {'C13': check_C13, 'C11': check_C11, 'C02': check_C02, 'C20': check_C20, 'C04': check_C04, 'C08': check_C08, 'C07': check_C07, 'C05': check_C05}
 
 
 def main():
@@ -281,7 +308,7 @@ def main():
     seed = int(os.environ.get('VERIF_SEED', '20240930'))
     if a.replay:
         rep = json.load(open(a.replay))
-        mod = {'C08': 'oracle_C08', 'C07': 'oracle_sym', 'C05': 'oracle_sym', 'C04': 'oracle_C04', 'C02': 'oracle_C02', 'C20': 'kernels'}.get(a.prop)
+        mod = {'C08': 'oracle_C08', 'C07': 'oracle_sym', 'C05': 'oracle_sym', 'C04': 'oracle_C04', 'C02': 'oracle_C02', 'C20': 'kernels', 'C11': 'oracle_C11', 'C13': 'oracle_C13'}.get(a.prop)
         res = harness(mod, (['--prop', a.prop] if mod == 'oracle_sym' else []) + ['--mode', 'replay', '--file', a.replay])
         print(json.dumps(res, indent=1))
         return 1 if res.get('violations') else 0
